@@ -82,6 +82,19 @@ func c09Receivers(c *Ctx) []c09Recv {
 			return stackage.Cond("kw", stackage.Eq, "val").SetValidityPolicy(func(...any) error { return errCat }).SetReadOnly(true)
 		}},
 		c09Recv{"Condition/init-only", func() any { var cd stackage.Condition; cd.Init(); return cd.SetNoNesting(true).SetReadOnly(true) }},
+		// encapsulation entries that are parts of one slice the caller keeps (spare room behind the first)
+		c09Recv{"AND/content1/encap-parts", func() any {
+			chars := []string{"<", ">", "|"}
+			return stackage.And().SetEncap(chars[:1], chars[1:2]).Push("a", nil, "b").SetReadOnly(true)
+		}},
+		c09Recv{"LIST/content2/encap-parts", func() any {
+			chars := []string{"<", ">", "|"}
+			return stackage.List().SetEncap(chars[:1], chars[1:2]).Push(stackage.Or().SetEncap(chars[2:]).Push("n1"), "leaf").SetReadOnly(true)
+		}},
+		c09Recv{"Condition/encap-parts", func() any {
+			chars := []string{"<", ">", "|"}
+			return stackage.Cond("kw", stackage.Eq, "val").SetEncap(chars[:1], chars[1:2]).SetReadOnly(true)
+		}},
 	)
 	return out
 }
